@@ -19,7 +19,11 @@ through the `type_rewrites` entries `try_type_rewrite` builds.
 What is a theorem and what is not: these theorems are about *plans* (the
 `type_rewrites` map and how keys are read).  That every relation in the SQL the
 compiler emits for a query is read through its key's rewrite is audited per
-generated query by `harness/props/c07.py`, not proved.
+generated query by `harness/props/c07.py`, not proved.  Likewise the compilation
+context of policy bodies (`suppress_rewrites`, the per-security-context caches of
+schema aliases and computed globals) is not modelled: "a view compiled inside a
+policy body is never reused by the statement proper" is an audit rule on the real
+IR/SQL, not a theorem.
 -/
 import EdbVerif.Lemmas.PolicyExact
 
